@@ -523,6 +523,9 @@ func init() {
 		l.p("/-- `crsr.ApplyState`, when the position differs, switches the whole iterator tree backward and forward again")
 		l.p("(`cur.it.SetBackward(true); cur.it.SetBackward(false)`) — unconditionally, with or without a filter on top -/")
 		l.p("def applyStateResyncs : Bool := %s", leanBool(resync))
+
+		// 8.. the callers: the two Query read loops, the tag line on its way to the result, the limit error on its way to the client
+		c04callerFacts(l)
 		l.write()
 	}
 }
